@@ -243,6 +243,100 @@ func driveRetain(c *driverCtx, run int) {
 	c.rec.Emit(key, map[string]any{"op": "retain", "inputs": inputs, "checkpoints": checkpoints, "err": errString(rerr), "panic": pan, "delivered": len(ks)})
 }
 
+// driveRetainAcrossReads: a read that the callback aborts (after closing the bank it was given, the usual
+// "found it, stop" idiom), then two complete reads of the same file whose records are all retained with their banks
+// open: the banks handed out by the later reads must be different banks.
+func driveRetainAcrossReads(c *driverCtx, run int) {
+	st := staticOf[GCInnerLite]("GCInnerLite")
+	n := 4 + c.rng.Intn(8)
+	vals := genValues(c.rng, st.typ, n)
+	codec := codecs3[run%3]
+	cfg := rtConfig{Codec: codec, Block: []int{0, 60, 1 << 20}[run%3], Flush: map[int]bool{}}
+	w := &recWriter{}
+	if err, p := safeMake(st.mk, w, cfg, vals); err != nil || p != "" {
+		return
+	}
+	// the second complete read is of a file with other values (a recycled bank filled with the same bytes again
+	// would hide the recycling)
+	vals2 := genValues(c.rng, st.typ, n)
+	w2 := &recWriter{}
+	if err, p := safeMake(st.mk, w2, cfg, vals2); err != nil || p != "" {
+		return
+	}
+	abortAt := c.rng.Intn(n)
+	closeBefore := run%2 == 0
+	key := fmt.Sprintf("C10|retain-after-abort|%s|B%d|close%v", codec, cfg.Block, closeBefore)
+	inputs := make([]any, 0, 2*n)
+	for _, vs := range [][]reflect.Value{vals, vals2} {
+		for _, v := range vs {
+			inputs = append(inputs, projectValue(v))
+		}
+	}
+	sentinel := fmt.Errorf("stop here")
+	seen := 0
+	pan := catch(func() {
+		avro.ReadFile(bytes.NewReader(w.out), reflect.New(st.typ).Elem().Interface(), func(val unsafe.Pointer, rb *avro.ResourceBank) error {
+			seen++
+			if seen-1 == abortAt {
+				if closeBefore {
+					rb.Close()
+				}
+				return sentinel
+			}
+			rb.Close()
+			return nil
+		})
+	})
+	type kept struct {
+		v      reflect.Value
+		bank   *avro.ResourceBank
+		closed bool
+	}
+	var ks []*kept
+	var checkpoints []any
+	checkpoint := func(after string) {
+		var idx []int
+		var vs []any
+		for i, k := range ks {
+			if k.closed {
+				continue
+			}
+			idx = append(idx, i+1)
+			vs = append(vs, safeProject(k.v))
+		}
+		checkpoints = append(checkpoints, map[string]any{"after": after, "open": orEmptyInts(idx), "values": orEmpty(vs)})
+	}
+	var rerr error
+	for rep := 0; rep < 2 && pan == "" && rerr == nil; rep++ {
+		pan = catch(func() {
+			rerr = avro.ReadFile(bytes.NewReader([][]byte{w.out, w2.out}[rep]), reflect.New(st.typ).Elem().Interface(), func(val unsafe.Pointer, rb *avro.ResourceBank) error {
+				cp := reflect.New(st.typ).Elem()
+				cp.Set(reflect.NewAt(st.typ, val).Elem())
+				ks = append(ks, &kept{v: cp, bank: rb})
+				return nil
+			})
+		})
+		checkpoint(fmt.Sprintf("end of read %d after an aborted read", rep+1))
+		if rep == 0 {
+			// every other record of the first read is done with: its bank may be recycled by the second read
+			for i, k := range ks {
+				if i%2 == 1 {
+					k.bank.Close()
+					k.closed = true
+				}
+			}
+			checkpoint("every other bank of read 1 closed")
+		}
+	}
+	for _, k := range ks {
+		if !k.closed {
+			k.bank.Close()
+		}
+	}
+	c.rec.NewCase()
+	c.rec.Emit(key, map[string]any{"op": "retain", "inputs": inputs, "checkpoints": checkpoints, "err": errString(rerr), "panic": pan, "delivered": len(ks)})
+}
+
 func orEmptyInts(x []int) []int {
 	if x == nil {
 		return []int{}
@@ -268,6 +362,9 @@ func driveC10(c *driverCtx) error {
 	}
 	for run := 0; run < c.pick(24, 3000); run++ {
 		driveRetain(c, run)
+	}
+	for run := 0; run < c.pick(12, 600); run++ {
+		driveRetainAcrossReads(c, run)
 	}
 	return nil
 }
